@@ -28,9 +28,10 @@ func init() {
 		Rule: "sequential cases: random history A over schema K (indexes, fks, links, child stores) -> whole-file dump D_A -> snapshot by each route (Snapshot(path), SnapshotInTx inside a read transaction, StreamToWriter) -> further committed transactions -> restore (RestoreSnapshot / RestoreFromReader with readers that report EOF separately, together with the last bytes, byte-wise, in halves, in 4 kB chunks) -> " +
 			"dump must equal D_A except meta/snapshotId and meta/resetTimeline (exactly equal for the unmarked StreamToWriter route); GetSnapshotId equals the id Snapshot returned; every restore listener fired exactly once; the next GetTimelineId (default or initIfEmpty mode; the database started with a timeline id, without one, or was only asked in default mode) calls the id function exactly once and returns its value, " +
 			"the following two return the same value without calling it (in half of the cases a request whose id function fails comes first: it must return that error and leave the reset pending); the structural monitor is clean against the model of time A and the database accepts further transactions. " +
-			"concurrent cases (race detector): a mutator takes snapshots and restores them (hook sleeps of 0-3 ms between the persist / close / rename / reopen steps), 2 writers rewrite the whole database into stamped state(g), 6 readers verify in every read transaction that the entire content equals state(g) of one generation; " +
+			"concurrent cases (race detector): a mutator takes snapshots and restores them (hook sleeps of 0-3 ms between the persist / close / rename / reopen steps), 2 writers rewrite the whole database into stamped state(g), 6 readers verify in every read transaction that the entire content equals state(g) of one generation (every other one keeps the transaction open for up to 0.6 ms and then asks Db.RootBucket(tx) for the root bucket, as the migration manager does), " +
+			"a snapshotter calls Db.Snapshot(path) in a loop next to the restores and opens every snapshot file as a database of its own: it must hold state(g) of one generation; bounded progress: if no client completes an operation for 20 s the case is a violation with the goroutine dump as witness; " +
 			"all clients log call/return, and porcupine checks the history against a register model (write(g) sets, restore(g_s) sets to the snapshot's generation, read returns the current one). non-trivial = distinct (route, restore call, history digest) and reads overlapping a restore",
-		Assumptions: []string{"interleavings are sampled; Snapshot / RootBucket concurrently with a restore are not driven (recursive read lock behind a waiting writer can deadlock: liveness, outside the statement)",
+		Assumptions: []string{"interleavings are sampled",
 			"a porcupine timeout is inconclusive"},
 		MaxWorkers: 6,
 		Plan: func(tier core.Tier, seed int64) int {
@@ -57,7 +58,7 @@ func init() {
 				"timeline_after_restore": {"round 0, start initialised", "round 0, start never requested", "round 0, start default on empty", "round 1, start never requested", "failing id function first", "two concurrent requests"}}
 		},
 		MinCounters: func(core.Tier) map[string]int64 {
-			return map[string]int64{"restores_sequential": 30, "reads_overlapping_a_restore": 20, "restores_concurrent": 30}
+			return map[string]int64{"restores_sequential": 30, "reads_overlapping_a_restore": 20, "restores_concurrent": 30, "root_bucket_in_tx": 500, "snapshots_overlapping_a_restore": 10}
 		},
 		WorkerTimeoutS: func(core.Tier) int { return 2400 },
 	})
@@ -374,6 +375,8 @@ func c17Concurrent(c *core.Ctx, idx int) {
 		}
 		_ = os.Remove(path)
 		_ = os.Remove(path + ".previous")
+		_ = os.Remove(path + ".csnap0")
+		_ = os.Remove(path + ".csnap1")
 	}()
 	var reads atomic.Int64
 	defer boltz.VerifSetHook(nil)
@@ -472,6 +475,42 @@ func c17Concurrent(c *core.Ctx, idx int) {
 			c.Count("restores_concurrent", 1)
 		}
 	}()
+	// snapshotter: file snapshots taken while restores, writers and readers run; each must be a consistent copy
+	rwg.Add(1)
+	go func() {
+		defer rwg.Done()
+		for n := 0; !stop.Load(); n++ {
+			sp := fmt.Sprintf("%s.csnap%d", path, n%2)
+			_ = os.Remove(sp)
+			startedBefore, doneBefore := restoring.Load(), restoresDone.Load()
+			_, _, err := s.db.Snapshot(sp)
+			reads.Add(1)
+			c.Eval()
+			if err != nil {
+				c.Violationf("C17 Snapshot failed during concurrent restores: "+firstWords(err.Error()), nil, "%v", err)
+				_ = os.Remove(sp)
+				continue
+			}
+			if restoring.Load() > doneBefore || startedBefore > doneBefore {
+				c.Count("snapshots_overlapping_a_restore", 1)
+			}
+			if pdb, err := bbolt.Open(sp, 0600, &bbolt.Options{ReadOnly: true}); err == nil {
+				_ = pdb.View(func(tx *bbolt.Tx) error {
+					_, bad := s.verifyTx(tx, n%2 == 0)
+					for _, b := range bad {
+						c.Violationf("C17 snapshot taken during concurrent restores is not a consistent copy: "+firstWords(b), nil, "%s", b)
+					}
+					return nil
+				})
+				_ = pdb.Close()
+			} else {
+				c.Violationf("C17 snapshot taken during concurrent restores cannot be opened", nil, "%v", err)
+			}
+			_ = os.Remove(sp)
+			c.Count("concurrent_snapshots", 1)
+			time.Sleep(time.Duration(n%3) * time.Millisecond)
+		}
+	}()
 	// readers
 	for rd := 0; rd < 6; rd++ {
 		rwg.Add(1)
@@ -485,6 +524,15 @@ func c17Concurrent(c *core.Ctx, idx int) {
 				var bad []string
 				err := s.db.View(func(tx *bbolt.Tx) error {
 					g, bad = s.verifyTx(tx, n%3 == 0)
+					if (rd+n)%2 == 0 {
+						// the documented way to reach the root bucket from inside a transaction (the migration
+						// manager does the same inside Db.Update); the transaction stays open a little while
+						time.Sleep(time.Duration((rd+n)%3) * 300 * time.Microsecond)
+						if rb, err := s.db.RootBucket(tx); err != nil || rb == nil {
+							bad = append(bad, fmt.Sprintf("RootBucket inside a read transaction: bucket %v err %v", rb != nil, err))
+						}
+						c.Count("root_bucket_in_tx", 1)
+					}
 					return nil
 				})
 				ret := h.now()
@@ -600,7 +648,10 @@ func blockedSummary(dumpText string) string {
 				continue
 			}
 			if strings.Contains(l, "openziti/storage") || strings.Contains(l, "bbolt") || strings.HasPrefix(l, "sync.") {
-				keep = append(keep, strings.SplitN(l, "(", 2)[0])
+				if i := strings.LastIndex(l, "("); i > 0 {
+					l = l[:i]
+				}
+				keep = append(keep, strings.TrimPrefix(strings.TrimPrefix(l, "github.com/openziti/storage/"), "go.etcd.io/"))
 			}
 			if len(keep) >= 5 {
 				break
